@@ -207,7 +207,13 @@ impl<'n, 'd> Multipart<'n, 'd> {
     /// During this step, if any files were added by path then they will be opened for reading
     /// and their length measured.
     pub fn prepare(&mut self) -> LazyIoResult<'n, PreparedFields<'d>> {
-        PreparedFields::from_fields(&mut self.fields)
+        PreparedFields::from_fields(&mut self.fields, super::gen_boundary())
+    }
+
+    /// Like [`prepare()`](#method.prepare), but with the boundary chosen by the caller instead of a
+    /// freshly generated one: used to serialize the same form a second time.
+    pub fn prepare_with_boundary(&mut self, boundary: &str) -> LazyIoResult<'n, PreparedFields<'d>> {
+        PreparedFields::from_fields(&mut self.fields, boundary.to_owned())
     }
 }
 
@@ -256,12 +262,12 @@ pub struct PreparedFields<'d> {
 }
 
 impl<'d> PreparedFields<'d> {
-    fn from_fields<'n>(fields: &mut Vec<Field<'n, 'd>>) -> Result<Self, LazyIoError<'n>> {
+    fn from_fields<'n>(fields: &mut Vec<Field<'n, 'd>>, boundary: String) -> Result<Self, LazyIoError<'n>> {
         debug!("Field count: {}", fields.len());
 
         // One of the two RFCs specifies that any bytes before the first boundary are to be
         // ignored anyway
-        let mut boundary = format!("\r\n--{}", super::gen_boundary());
+        let mut boundary = format!("\r\n--{}", boundary);
 
         let mut text_data = Vec::new();
         let mut streams = Vec::new();
